@@ -139,12 +139,20 @@ def _c09_valgrind(out, exe, res):
 # ------------------------------------------------------------------------------------------------
 def run_c10(out, exe, tier, res):
     reps = []
-    for k in range(2):
-        rep, status, err = _single(out, exe, "C10", tier, res)
-        if rep is None:
-            out.inconclusive.append("process %d: %s" % (k, status))
-            return
-        reps.append(rep)
+    # two separate processes, side by side (quick tier; the thorough histories use 16 threads each, so one after the other)
+    import concurrent.futures
+    with concurrent.futures.ThreadPoolExecutor(max_workers=2 if tier == "quick" else 1) as ex:
+        futs = [ex.submit(_single, out, exe, "C10", tier, "%s.p%d" % (res, k)) for k in range(2)]
+        for k, f in enumerate(futs):
+            rep, status, err = f.result()
+            try:
+                os.remove("%s.p%d" % (res, k))
+            except OSError:
+                pass
+            if rep is None:
+                out.inconclusive.append("process %d: %s" % (k, status))
+                return
+            reps.append(rep)
     heads = []
     for rep in reps:
         h = {}
